@@ -541,6 +541,30 @@ def r12_repurposed_type_params(repo):
     return obs
 
 
+def r13_single_vararg(repo):
+    """a parameter list has at most one vararg: wherever a loop over the parameters turns one into a vararg, the store is
+    latched (guarded by `not <flag>` and followed by `<flag> = True` in the same branch)"""
+    obs = []
+    gen = repo.cls(GEN)
+    for name, f in sorted(gen.methods.items()):
+        for st in iter_own_nodes(f.node):
+            if not (isinstance(st, ast.Assign) and isinstance(st.targets[0], ast.Attribute) and
+                    st.targets[0].attr == "vararg" and const_value(st.value) is True):
+                continue
+            loops = [a for a in ancestors(st) if isinstance(a, (ast.For, ast.While))]
+            if not loops:
+                continue
+            gs = [(src(t), p) for t, p in flat_guards(st, stop=loops[0])]
+            flags = [t for t, p in gs if not p and t.isidentifier()]
+            blk = getattr(st, "_parent", None)
+            sets = [n for n in getattr(blk, "body", []) if isinstance(n, ast.Assign) and const_value(n.value) is True and
+                    src(n.targets[0]) in flags] if isinstance(blk, ast.If) else []
+            obs.append(Ob("C01-R13", "%s:vararg-latched" % name, _w(f, st), bool(sets),
+                          "`%s` inside a loop over the parameters under %s: nothing prevents a second vararg (expected a "
+                          "`not <flag>` guard whose branch sets the flag)" % (src(st), [("" if p else "not ") + t for t, p in gs])))
+    return obs
+
+
 def r6_inheritance(repo):
     obs = []
     f = _m(repo, "_select_superclass")
@@ -624,6 +648,8 @@ def r6_inheritance(repo):
           src(n.targets[0]).startswith("new_f.")}
     ok = src(st.get("new_f.name").value) == "f.name" if "new_f.name" in st else False
     ok = ok and "new_f.override" in st and const_value(st["new_f.override"].value) is True
+    # the overriding field is exactly as final as the field it overrides (a `val` cannot become assignable, a `var` stays so)
+    ok = ok and "new_f.is_final" in st and src(st["new_f.is_final"].value) == "f.is_final"
     samp = [c for c in calls_in(f.node) if call_name(c) == "sample"]
     ok = ok and len(samp) == 1 and src(samp[0].args[0]) == "overridable_fields"
     obs.append(Ob("C01-R6", "gen_class_fields:overridden-fields-keep-name-and-come-from-overridable-fields", _w(f), ok,
@@ -865,6 +891,7 @@ def rules():
         RuleSpec("C01-R9", "inherited members are deep copies with substituted types", 9, r9_inherited_members),
         RuleSpec("C01-R10", "declared supertypes of the built-in types lie within the target language's lattice", 60, r10_builtin_lattice),
         RuleSpec("C01-R11", "a bottom constant is never forced for a primitive type", 5, r11_no_bottom_for_primitives),
+        RuleSpec("C01-R13", "at most one vararg parameter per parameter list (latched store)", 1, r13_single_vararg),
         RuleSpec("C01-R12", "type parameters of a class built for an existing type take that type's bounds, on every path", 4,
                  r12_repurposed_type_params),
     ]
